@@ -238,7 +238,7 @@ _DESC = {}
 def cases(tier, seed):
     out = []
     small = [1, 2, 3, 4, 5, 6]
-    big = [8, 25] if tier == "quick" else [8, 12, 25, 40, 60, 150]
+    big = [8, 25, 60] if tier == "quick" else [8, 12, 25, 40, 60, 150]
     tols = [1e-12, 1e-6]
     for tok in ("f8", "c16"):
         for n in small:
